@@ -35,9 +35,16 @@ def driver_A():
         func("arrviacall", [("int", "d")], "int", [("decl", "int", "before", IDX(V("arr"), V("d"))), ("decl", "int", "r", ("call", "bumparr", [V("d")])),
                                                   ("ret", B("+", B("*", V("before"), lit(100)), B("+", B("*", IDX(V("arr"), V("d")), lit(10)), V("r"))))]),
         func("digest", [("int", "d")], "int", [("ret", B("+", B("+", B("*", V("counter"), lit(100)), B("*", IDX(V("arr"), 0), lit(10))), B("+", IDX(V("arr"), 1), B("*", FLD(V("gs"), "n"), lit(1000)))))]),
+        # helper chains two calls deep: the middle function touches no global itself, the innermost one reads / writes one
+        func("rd", [("int", "d")], "int", [("ret", B("+", B("*", V("counter"), lit(10)), V("d")))], export=False),
+        func("mid", [("int", "d")], "int", [("ret", B("+", ("call", "rd", [V("d")]), lit(1)))], export=False),
+        func("viamid", [("int", "d")], "int", [("decl", "int", "r1", ("call", "mid", [V("d")])), ("ret", B("+", B("*", V("r1"), lit(100)), ("call", "mid", [V("d")])))]),
+        func("bumpvia", [("int", "d")], "int", [("ret", B("+", ("call", "bump", [V("d")]), lit(5)))], export=False),
+        func("viabump", [("int", "d")], "int", [("decl", "int", "r1", ("call", "bumpvia", [V("d")])), ("decl", "int", "r2", ("call", "bumpvia", [V("d")])),
+                                               ("ret", B("+", B("+", B("*", V("r1"), lit(100)), B("*", V("r2"), lit(10))), V("counter")))]),
     ]
     domains = {"counter": [0, 2], "arr": [[0, 0], [1, 0]], "gs": [{"n": 0, "v": [0.5, 1.5]}, {"n": 1, "v": [1.5, 1.5]}], "gv": [[1.0, 2.0, 3.0, 4.0], [2.0, 2.0, 1.0, 1.0]]}
-    return {"name": "A", "prog": lang.prog(fs, globals_, structs), "domains": domains, "invoke": [(f["name"], a) for f in fs for a in ((0, 1) if f["name"] != "digest" else (0,))]}
+    return {"name": "A", "prog": lang.prog(fs, globals_, structs), "domains": domains, "invoke": [(f["name"], a) for f in fs if f["export"] for a in ((0, 1) if f["name"] != "digest" else (0,))]}
 
 
 def driver_B():
